@@ -16,15 +16,52 @@ pub fn instances(tier: &str) -> Vec<String> {
     for n in 2..=(if tier == "thorough" { 9 } else { 5 }) { v.push(format!("space:n={}", n)); }
     // element-wise arithmetic is ONE IEEE operation per entry (props/fparith.rs)
     v.push("fp_arith:of=vector,n=2".into());
+    // Vector<Complex<f64>>: conj / real / norm_inf and the generic operators at the complex instantiation
+    for n in 0..=(if tier == "thorough" { 4 } else { 3 }) { v.push(format!("cvec:n={}", n)); }
     v
 }
 
 fn z() -> Sym { Sym::lit(0.0) }
 fn vv(x: &[Sym]) -> Vector<Sym> { Vector::create(x.to_vec()) }
 
+fn complex_vectors(n: usize) {
+    use ohsl_sym::{Cmplx, Vector as V2};
+    let cv = |q: &str| -> Vec<Cmplx> { (0..n).map(|i| Cmplx::new(Sym::var(&format!("{}r_{}", q, i)), Sym::var(&format!("{}i_{}", q, i)))).collect() };
+    let (a, b) = (cv("a"), cv("b"));
+    let w = Cmplx::new(Sym::var("wr"), Sym::var("wi"));
+    let mk = |x: &[Cmplx]| V2::<Cmplx>::create(x.to_vec());
+    let expect = |tag: &str, r: &V2<Cmplx>, want: &[Cmplx]| {
+        if !check_that(r.size() == want.len(), || format!("complex {}: length {} instead of {}", tag, r.size(), want.len())) { return; }
+        for i in 0..want.len() { prove_eq(&format!("complex {}: entry {} (real part)", tag, i), r[i].real, want[i].real); prove_eq(&format!("complex {}: entry {} (imaginary part)", tag, i), r[i].imag, want[i].imag); }
+    };
+    must("complex conj", || mk(&a).conj(), |r| expect("conj", &r, &a.iter().map(|c| Cmplx::new(c.real, -c.imag)).collect::<Vec<_>>()));
+    must("complex real", || mk(&a).real(), |r| { if check_that(r.size() == n, || "complex real: length".into()) { for i in 0..n { prove_eq(&format!("complex real: entry {}", i), r[i], a[i].real); } } });
+    must("complex &v + &w", || &mk(&a) + &mk(&b), |r| expect("&v + &w", &r, &(0..n).map(|i| Cmplx::new(a[i].real + b[i].real, a[i].imag + b[i].imag)).collect::<Vec<_>>()));
+    must("complex v - w", || mk(&a) - mk(&b), |r| expect("v - w", &r, &(0..n).map(|i| Cmplx::new(a[i].real - b[i].real, a[i].imag - b[i].imag)).collect::<Vec<_>>()));
+    must("complex -v", || -mk(&a), |r| expect("-v", &r, &a.iter().map(|c| Cmplx::new(-c.real, -c.imag)).collect::<Vec<_>>()));
+    must("complex v * w", || mk(&a) * w, |r| expect("v * w", &r, &a.iter().map(|c| Cmplx::new(c.real * w.real - c.imag * w.imag, c.real * w.imag + c.imag * w.real)).collect::<Vec<_>>()));
+    must("complex dot", || mk(&a).dot(&mk(&b)), |r| {
+        let (mut re, mut im) = (z(), z());
+        for i in 0..n { re = re + (a[i].real * b[i].real - a[i].imag * b[i].imag); im = im + (a[i].real * b[i].imag + a[i].imag * b[i].real); }
+        prove_eq("complex dot = sum a_i b_i (real part; no conjugation)", r.real, re); prove_eq("complex dot = sum a_i b_i (imaginary part; no conjugation)", r.imag, im);
+    });
+    if n >= 1 {
+        let m2: Vec<Sym> = a.iter().map(|c| c.real * c.real + c.imag * c.imag).collect();
+        must("complex norm_inf", || mk(&a).norm_inf(), |r| {
+            for i in 0..n { prove(&format!("complex norm_inf^2 >= |a_{}|^2", i), le(m2[i], r * r)); }
+            prove("complex norm_inf >= 0", le(z(), r));
+            prove("complex norm_inf is attained: norm_inf^2 = |a_i|^2 for some i", B::or((0..n).map(|i| eq(r * r, m2[i])).collect()));
+        });
+        let intact = { let v = mk(&a); let _ = v.norm_inf(); let _ = v.conj(); let _ = v.real(); (0..n).all(|i| v[i].real.same(a[i].real) && v[i].imag.same(a[i].imag)) };
+        prove("complex conj / real / norm_inf leave the vector intact", if intact { B::True } else { B::False });
+    }
+    control("cvec control", eq(w.real, w.real + Sym::lit(1.0)));
+}
+
 pub fn body(inst: &str) {
     let (kind, p) = parse_inst(inst);
     let n = geti(&p, "n");
+    if kind == "cvec" { return complex_vectors(n); }
     let a = var_vec("a", n);
     let b = var_vec("b", n);
     let s = Sym::var("s");
